@@ -121,10 +121,10 @@ def main(run: Run):
     if not run.replay:
         # 1. design level
         if thorough:
-            design(run, "passive", "CfgsPassive", "{0, 3, 9}", "{1, 3, 5}", 5)
-            design(run, "active-lo", "CfgsActiveLo", "{9}", "{2, 5}", 7, timeout=1500)
-            design(run, "active-hi", "CfgsActiveHi", "{9}", "{2, 5}", 6)
-            design(run, "active-eq", "CfgsActiveEq", "{3}", "{2, 240}", 5)
+            design(run, "passive", "CfgsPassive", "{0, 3, 6, 9}", "{1, 3, 5}", 6)
+            design(run, "active-lo", "CfgsActiveLo", "{9}", "{2, 5}", 8, timeout=1500)
+            design(run, "active-hi", "CfgsActiveHi", "{9}", "{2, 5}", 7, timeout=1500)
+            design(run, "active-eq", "CfgsActiveEq", "{3}", "{2, 240}", 6)
         else:
             design(run, "passive", "CfgsPassive", "{3, 9}", "{1, 3, 5}", 5)
             design(run, "active-lo", "CfgsActiveLo", "{9}", "{2, 5}", 5)
